@@ -11,12 +11,14 @@ package regex
 //@ reglemma[C07] definition-name-grammar: equal(group(regex.DefinitionRegex, 2), group(regex.DefinitionReferenceRegex, 1))
 
 // ---- C18: the accepted rule-argument grammar is exactly NNNNNN[-chainK][.ra]
-//@ reglemma[C18] rule-argument-grammar: equal(match(regex.RuleIdFileNameRegex), full(`[0-9]{6}(-chain[0-9]+)?(\.ra)?`))
+//@ reglemma[C18,C08] rule-argument-grammar: equal(match(regex.RuleIdFileNameRegex), full(`[0-9]{6}(-chain[0-9]+)?(\.ra)?`))
 
 // ---- C15: renumber-tests rewrites only NNNNNN.yaml / NNNNNN.yml
 //@ reglemma[C15,C13] test-file-name-filter: subset(match(regex.RuleIdTestFileNameRegex), full(`[0-9]{6}\.ya?ml`))
 
 // ---- C11: chained rules are counted by lines whose first token is SecRule
+//@ reglemma[C11,C12] rx-prefix-ends-with-one-blank: subset(group(regex.RuleRxRegex, 1), full(`.*"!?@rx `))
+//@ reglemma[C11,C12] rx-suffix-starts-at-the-closing-quote: subset(group(regex.RuleRxRegex, 3), full(`" \\.*`))
 //@ reglemma[C11,C12] secrule-line: subset(match(regex.SecRuleRegex), full(`\s*SecRule(\s.*)?`), lines)
 
 // ---- C14: whatever version the write side accepts, the read side matches in full.
